@@ -266,8 +266,13 @@ class Server:
                     taken.update(ops)
                     cpu_left -= cpu
                     ram_left -= ram
+                    prio = p["priority"]
+                    if k.get("own_priorities") and r.random() < 0.4:
+                        # the reply decides the container's priority; nothing ties it to the pipeline's class
+                        prio = r.choice(["QUERY", "INTERACTIVE", "BATCH_PIPELINE"])
+                        self.probe("priority_differs_from_pipeline", int(prio != p["priority"]))
                     asg.append({"operator_ids": ops, "cpu": cpu, "ram_gb": ram, "pool_id": pool["pool_id"],
-                                "priority": p["priority"], "is_resume": bool(r.random() < 0.2), "force_run": False})
+                                "priority": prio, "is_resume": bool(r.random() < 0.2), "force_run": bool(k.get("own_priorities") and r.random() < 0.15)})
                 # keep the batch admissible under float addition (the quantifier is over admissible decisions)
                 mine = [a for a in asg if a["pool_id"] == pool["pool_id"]]
                 while mine and not self.cfg["over"]:
@@ -430,7 +435,7 @@ def gen_scn(r, tier):
     scn["latency"] = r.choice(["fast", "slow", "wild"])
     scn["policy_knobs"] = {"p_asg": r.choice([0.3, 0.7, 1.0]), "p_sus": r.choice([0, 0.3, 1.0]),
                            "per_pool": r.choice([1, 2, 4]), "retry": r.random() < 0.6, "fractional_cpu": r.random() < 0.3,
-                           "mixed": r.random() < 0.4}
+                           "mixed": r.random() < 0.4, "own_priorities": r.random() < 0.4}
     return scn
 
 
